@@ -58,6 +58,7 @@ var UseSites = []useSite{
 	{Query: "T | where not(n) or isnull(n) or n == n", Pos: 0},
 	{Query: "T | extend n", Pos: 3},
 	{Query: "T | where true == n and count > 1", Pos: 0},
+	{Query: "T | where `true` == n and `null` > `false`", Pos: 0, Cols: []string{"true", "null", "false"}},
 }
 
 var LetSuffixes = []string{"", "; let n = 7", "; let z = n + k"}
